@@ -137,6 +137,11 @@ def run(tier, seed):
                                       container=rng.choice(conts), nn_state=real["nn_state"])
             runs.append((cfg2, real2, dict(resumed_after=cfg)))
 
+    # two fixed runs that can always serve as donors of the negative controls (tail batch, distinct rows, mixed bases)
+    for typ, bases in (("positive", []), ("complex", [0, 1, 0, 5, 7])):
+        cfg = dict(type=typ, startEp=1, epochs=2, N=5, posB=2, negB=0, data=[1, 2, 3, 0, 2], bases=bases, sched=False,
+                   entryStop=False, again="no", perms="all", cbs=[{"t": "rec"}], vals=[], vars=[])
+        runs.append((cfg, trainrun.real_run(cfg, seed=rng.randrange(10 ** 6), k=1), dict(fixed_donor=True)))
     tut = tutorial_runs(rng, tier)
     chk.extra["tutorial_workload_traces"] = len(tut)
     runs += tut
@@ -159,8 +164,10 @@ def run(tier, seed):
         return ("trace where a sample got another row's basis accepted", ln)
 
     def dropped_tail(lines):
-        ln = copy.deepcopy(next(x for x in lines if x["cfg"]["N"] % x["cfg"]["posB"] and x["cfg"]["N"] > x["cfg"]["posB"]))
-        cgs = [i for i, e in enumerate(ln["ev"]) if e["k"] == "CG" and e["ep"] == 1]
+        first = lambda x: [i for i, e in enumerate(x["ev"]) if e["k"] == "CG" and e["ep"] == x["cfg"]["startEp"]]  # noqa: E731
+        ln = copy.deepcopy(next(x for x in lines if x["cfg"]["N"] % x["cfg"]["posB"] and x["cfg"]["N"] > x["cfg"]["posB"]
+                                and len(first(x)) >= 2))
+        cgs = first(ln)
         last = cgs[-1]
         # remove the whole last batch of epoch 1: BS .. BE
         lo = max(i for i in range(last) if ln["ev"][i]["k"] == "BS")
